@@ -509,6 +509,7 @@ fn lattice(ctx: &Ctx, rep: &mut Report) {
                                                 reference(&sc, &o, &mut out);
                                             }
                                             total += 1;
+                                            crate::engine::PROGRESS.fetch_add(1, std::sync::atomic::Ordering::Relaxed);
                                             rep.nontrivial.insert(hash_of(&("lat", p1, class, fp1, fclass, facc, fvar, steps, gm_b, sender_b, prior == Prelude::None)));
                                             for l in out.labels {
                                                 *rep.labels.entry(format!("lattice:{}", l)).or_insert(0) += 1;
@@ -606,6 +607,7 @@ fn lattice2(ctx: &Ctx, rep: &mut Report) {
                             reference(&sc2, &o, &mut out);
                         }
                         total += 1;
+                        crate::engine::PROGRESS.fetch_add(1, std::sync::atomic::Ordering::Relaxed);
                         if let (Some(v), None) = (out.violation, &first) {
                             first = Some((v.sig, v.detail, render(&sc2)));
                         }
